@@ -294,7 +294,7 @@ def run(ctx):
         rest = [c for c in cs if not interesting(c)]
         ctx.rng.shuffle(inter)
         ctx.rng.shuffle(rest)
-        n = 220 if ctx.thorough else 44
+        n = 110 if ctx.thorough else 44
         cases += inter[: n * 3 // 4] + rest[: n // 4]
         unis[s] = Universe(ctx, s)
     ctx.cov["exhaustive"] = False
